@@ -982,11 +982,11 @@ impl FromStr for Epoch {
                 details: "less than 7 characters",
             })
         } else {
-            let format = if &s[..2] == "JD" {
+            let format = if s.starts_with("JD") {
                 "JD"
-            } else if &s[..3] == "MJD" {
+            } else if s.starts_with("MJD") {
                 "MJD"
-            } else if &s[..3] == "SEC" {
+            } else if s.starts_with("SEC") {
                 "SEC"
             } else {
                 // Not a valid format, hopefully it's a Gregorian date.
@@ -994,13 +994,22 @@ impl FromStr for Epoch {
             };
 
             // This is a valid numerical format.
-            // Parse the time scale from the last three characters (TS trims white spaces).
-            let ts = TimeScale::from_str(&s[s.len() - 3..]).with_context(|_| ParseSnafu {
+            // The time scale is what follows the last digit, decimal point or white space (TS trims white spaces).
+            let ts_idx = s
+                .rfind(|c: char| c.is_ascii_digit() || c == '.' || c.is_whitespace())
+                .map_or(0, |idx| idx + 1);
+            let ts = TimeScale::from_str(&s[ts_idx..]).with_context(|_| ParseSnafu {
                 details: "parsing from string",
             })?;
-            // Iterate through the string to figure out where the numeric data starts and ends.
+            // The numeric data is between the format and the time scale.
             let start_idx = format.len();
-            let num_str = s[start_idx..s.len() - ts.formatted_len()].trim();
+            if ts_idx < start_idx {
+                return Err(HifitimeError::Parse {
+                    source: ParsingError::ValueError,
+                    details: "parsing as JD, MJD, or SEC",
+                });
+            }
+            let num_str = s[start_idx..ts_idx].trim();
             let value: f64 = match lexical_core::parse(num_str.as_bytes()) {
                 Ok(val) => val,
                 Err(_) => {
@@ -1010,6 +1019,12 @@ impl FromStr for Epoch {
                     })
                 }
             };
+            if !value.is_finite() {
+                return Err(HifitimeError::Parse {
+                    source: ParsingError::ValueError,
+                    details: "JD, MJD, or SEC must be finite",
+                });
+            }
 
             match format {
                 "JD" => match ts {
